@@ -180,6 +180,8 @@ func run(c *runner.Ctx) {
 	}
 	// part 3: many values in one collection
 	checkWide(c, &idx)
+	// part 4: empty values through transformations that map "" to something else
+	checkEmpty(c, &idx)
 	for _, f := range first {
 		for _, s := range second {
 			for _, ph := range [][2]int{{2, 2}, {2, 1}, {1, 2}} {
@@ -271,6 +273,77 @@ func checkWide(c *runner.Ctx, idx *int) {
 			c.Distinct(string(b))
 		})
 		scen.Close(w)
+	}
+}
+
+// checkEmpty: an empty value is a value: it goes through the rule's transformations like any other ("" has length 0).
+func checkEmpty(c *runner.Ctx, idx *int) {
+	type op struct{ op, arg string }
+	for ci, coll := range []string{"ARGS_GET", "ARGS_POST", "ARGS", "REQUEST_HEADERS", "REQUEST_COOKIES"} {
+		place := []int{0, 1, 0, 2, 3}[ci]
+		for _, key := range []string{"", "a"} {
+			for _, tr := range [][]string{{"length"}, {"trim", "length"}, {"lowercase"}, nil} {
+				for _, o := range []op{{"eq", "0"}, {"streq", "0"}, {"rx", "^0$"}, {"rx", "^$"}} {
+					for _, neg := range []bool{false, true} {
+						for _, multi := range []bool{false, true} {
+							if multi && len(tr) == 0 {
+								continue
+							}
+							*idx++
+							if !c.Mine(*idx) || c.Expired() {
+								continue
+							}
+							r := &sm.Rule{ID: 1, Phase: 2, Targets: []sm.Target{{Coll: coll, Key: key}}, Trans: tr, Op: o.op, Arg: o.arg, Neg: neg, Multi: multi}
+							rules := []*sm.Rule{r}
+							conf := sm.Config(rules)
+							w, err := scen.Build(conf)
+							if err != nil {
+								c.Violation("build:"+firstLine(err.Error()), "generated configuration rejected: "+err.Error()+"\n"+conf, kase{Rules: rules})
+								continue
+							}
+							vals := []string{"", "x", "  "}
+							if place >= 2 {
+								vals = []string{"", "x"} // header / cookie values are trimmed by their grammars
+							}
+							for _, v1 := range vals {
+								for _, v2 := range append([]string{"-"}, vals...) {
+									var q sm.Request
+									ps := []sm.Pair{{N: "a", V: v1}}
+									if v2 != "-" {
+										ps = append(ps, sm.Pair{N: "b", V: v2})
+									}
+									switch place {
+									case 0:
+										q.Get = ps
+									case 1:
+										q.Post = ps
+									case 2:
+										q.Hdr = ps
+									case 3:
+										q.Cookie = ps
+									}
+									want, spec := sm.Eval(rules, q)
+									if !spec {
+										c.Count("skipped_unspecified", 1)
+										continue
+									}
+									o := scen.Run(w, q.Scen(), scen.Options{})
+									c.Count("evaluations", 1)
+									got, exp := render(o), renderWant(want)
+									if got != exp {
+										c.Violation("empty-value:"+classify(rules, q, o, want), "configuration:\n"+conf+"request: "+fmt.Sprintf("%+v", q)+"\n--- engine:\n"+got+"--- reference model:\n"+exp, kase{Rules: rules, Req: q})
+									}
+									c.Outcome(got)
+									b, _ := json.Marshal(kase{Rules: rules, Req: q})
+									c.Distinct(string(b))
+								}
+							}
+							scen.Close(w)
+						}
+					}
+				}
+			}
+		}
 	}
 }
 
